@@ -67,6 +67,10 @@ def family(rp):
     f.add("initialiser-wrong-type", "def x: Int := \"s\"\nprint(x + 1)", "reject")
     f.add("return-wrong-type", "def h(a: Int) -> Int =>\n    return \"s\"\nprint(h(1) + 1)", "reject")
     f.add("literal-real-into-int", "def r: Int := 2.5", "reject")
+    # a field that is only reached through, never assigned, stays the class-level None: AttributeError / TypeError at run time
+    f.add("field-assigned-through-nested-only", "class A\n    def b: Int := 0\n\nclass X\n    def a: A\n\n    def __init__(self) =>\n        self.a.b := 1\n\ndef o := X()\nprint(o.a.b)", "reject")
+    f.add("field-read-in-own-first-assignment", "class X\n    def z: Int\n\n    def __init__(self, start: Int) =>\n        self.z := self.z + start\n\nprint(X(1).z)", "reject")
+    f.add("field-assigned-in-init", "class X\n    def z: Int\n\n    def __init__(self) =>\n        self.z := 1\n\nprint(X().z + 1)", clean)
     return f
 
 
@@ -81,7 +85,7 @@ def run(run):
                "Python stub files at run time, collections and comprehensions")
     run.trusted += ["rustc nightly MIR dump", "mirsym MIR semantics", "z3", "python3 (replay)"]
     run.bounds = {"paths": "all paths of each kernel with loops cut at their headers"}
-    for f in (C05.ob_operator_typing, C05.ob_bitwise_typed, C05.ob_compound_assignment, C05.ob_method_parameters, C05.ob_access_direction, C05.ob_unify_type, C05.ob_call_parameters):
+    for f in (C05.ob_operator_typing, C05.ob_range_operands, C05.ob_bitwise_typed, C05.ob_compound_assignment, C05.ob_method_parameters, C05.ob_access_direction, C05.ob_unify_type, C05.ob_call_parameters):
         try:
             f(run, mir, rp, fam)
         except Unsupported as e:
@@ -92,7 +96,7 @@ def run(run):
         C20.ob_generics(run, mir, rp, C20.family(rp))
     except Unsupported as e:
         run.ob("generics-encoding", "E2", "kernel is encodable").inconclusive(f"unsupported construct: {e}")
-    for f in (C09.ob_lookup, C09.ob_flow):
+    for f in (C09.ob_lookup, C09.ob_flow, C09.ob_assigned_detection, C09.ob_assignment_value_first):
         try:
             f(run, mir, rp, fam)
         except Unsupported as e:
